@@ -16,8 +16,49 @@ RULE = ("graph searches on the real core code (Dijkstra, A* with weight factors 
         "distinct by (world, query)")
 
 
+RULE_APP = ("end to end through the application: a REAL CompassApp built offline from a generated TOML configuration + network "
+            "files (3-40 vertices on a 1/8-degree grid, parallel edges, self loops, dead ends, disconnected parts, speed table, "
+            "optional [state] section, turn-delay / heading tables, road-class frontier), CompassApp::run on one JSON query "
+            "(origin_vertex/destination_vertex, origin_edge/destination_edge or coordinates matched by the vertex / edge "
+            "map-matching input plugin; a* / dijkstra and weight factor from the configuration, weight_factor / weights / "
+            "state_features / road_classes from the query; vertex- and edge-oriented). Families first: searchkit's boundary "
+            "worlds that a configuration can express (forward, Dijkstra / default A*) with rotating route format (edge_id, json), "
+            "tree format (json, edge_id, none), summary plugin and map matching; then random networks. I = status (no-path "
+            "errors with the two ids the message names), route.path edge ids, tree entries (terminal_vertex when shown, edge "
+            "id), route_edges / tree_size_count of the summary plugin, agreement with the same query run directly on the core "
+            "API (SearchApp::build_search_instance + SearchAlgorithm::run_*; a different path of equal cost counts as agreement), "
+            "map-matched ids nearest. S = verified SearchSpec.check_route / check_eroute / check_tree / check_etree "
+            "(SR.check_outcome) evaluated in Coq against the network the files describe (coq/Model/E2ERun.v). No model line. "
+            "Non-trivial = route of >= 2 edges, tree of >= 3 entries or an error response; distinct by (configuration, query)")
+
+
 def classify(case, i, m, s):
     return None
+
+
+def replay_stream(chk):
+    """name of the stream a replay file belongs to (None: no replay / not recorded)"""
+    if not chk.replay:
+        return None
+    try:
+        return json.load(open(chk.replay)).get("stream")
+    except Exception:  # noqa
+        return None
+
+
+def run_app_stream(chk, stream, rule, n_quick, n_thorough):
+    """one end-to-end stream of harness/src/bin/e2e.rs: I vs S only (S = the verified checkers on the application's
+    JSON output); cases outside the property's hypotheses print `unspecified` and are not compared"""
+    binp = vf.build_harness("e2e")
+    n = n_quick if chk.tier == "quick" else n_thorough
+    r = vf.run_stream(binp, stream, n, chk.seed, os.path.join(chk.outdir, stream), replay=chk.replay)
+    I, S = r.impl.get("I", {}), r.model.get("S", {})
+    if "M" not in r.model:
+        # no model line in this stream: the comparison below is I vs S (a missing S line is still reported)
+        r.model["M"] = {cid: (I.get(cid) if s == "unspecified" else s) for cid, s in S.items()}
+    r.stats.setdefault("hist", {})["spec_unspecified"] = sum(1 for v in S.values() if v == "unspecified")
+    chk.add_stream(r, rule)
+    vf.compare(chk, r, classify=classify, binpath=binp)
 
 
 def run(chk):
@@ -27,12 +68,24 @@ def run(chk):
         "its table-driven instantiation coq/Model/SearchRun.v, tied by this correspondence run",
         "priority_queue crate specified as 'pop returns an entry of minimal priority; push_increase keeps the smaller "
         "cost' (tie-breaking unspecified); std HashMap as a finite map",
-        "Rust harness harness/src/searchkit.rs, harness/src/bin/c01.rs and this driver"]
+        "Rust harness harness/src/searchkit.rs, harness/src/bin/c01.rs and this driver",
+        "stream app_walk: harness/src/bin/e2e.rs (configuration / network writers, extraction of path and tree from the JSON "
+        "response: the key vertex of a tree entry is taken as the far end of its edge, no output format shows it), "
+        "coq/Model/E2ERun.v (calls the verified checkers, nothing else)"]
     chk.assumptions = [
         "costs are NaN-free: the cost order is a strict order compatible with a preorder and label + edge cost >= label "
         "(holds for Q with non-negative costs and for NaN-free binary64 with non-negative costs)",
         "origin and destination are distinct (as in the property); TerminationModel without the wall-clock variant in the model"]
-    chk.proofs(extra_targets=["Model/SearchRun.vo"])
+    # coq/Model/E2ERun.v (stream app_walk) also imports the traversal runner of C03, which reads the generated unit / cost /
+    # turn tables: regenerate them here too (a scratch checkout in VERIF_REPO mode starts without coq/Gen/*.v)
+    for name, res in vf.run_translators(which=["turn", "units", "cost"]).items():
+        if not res.get("ok", False):
+            vf.log("translator %s: %s (owned by another check; its previous output is used)" % (name, res.get("msg")))
+    chk.proofs(extra_targets=["Model/SearchRun.vo", "Model/E2ERun.vo"])
+    only = replay_stream(chk)
+    if only == "app_walk":
+        run_app_stream(chk, "app_walk", RULE_APP, 140, 1500)
+        return finish(chk)
     binp = vf.build_harness("c01")
     n = 1000 if chk.tier == "quick" else 12000
     # corpus cases (witnesses of earlier findings / of the mutations) are replayed first, in one batch
@@ -57,6 +110,12 @@ def run(chk):
     r.stats.setdefault("hist", {})["model_TIE_skipped"] = nt
     chk.add_stream(r, RULE)
     vf.compare(chk, r, classify=classify, binpath=binp)
+    if not chk.replay:
+        run_app_stream(chk, "app_walk", RULE_APP, 140, 1500)
+    finish(chk)
+
+
+def finish(chk):
     if chk.broken_obligation:
         chk.violation("broken-obligation", "proofs", {"obligations": chk.broken_obligation}, "does not check", "Qed",
                       found=False, key="obligation")
